@@ -50,6 +50,14 @@ func registerExtraModels(P *Program) {
 	}
 	m["crypto/subtle.ConstantTimeCompare"] = func(ex *Exec, fn *ssa.Function, args []Value) (Value, bool) {
 		x, y := args[0].(Slice), args[1].(Slice)
+		if x.A != nil && y.A != nil {
+			// the byte strings of two (wide) big integers: equal exactly when the magnitudes are
+			bx, okx := ex.blobs[x.A]
+			by, oky := ex.blobs[y.A]
+			if okx && oky {
+				return smt.Ite(ex.termEq(bx.I, by.I), smt.I64(1), smt.I64(0)), true
+			}
+		}
 		if x.Len != y.Len {
 			return smt.I64(0), true
 		}
